@@ -31,7 +31,7 @@ def num(x):
 
 try:
     b = mod.budget(REAL(20.0), REAL(8.0), REAL(2.0), INTEGER(9), INTEGER(4), INTEGER(2))
-    for a in ("remaining", "left_nested", "share", "prod", "mixed", "grouped", "powr", "neg", "idiv", "imod", "chain"):
+    for a in ("remaining", "left_nested", "share", "prod", "mixed", "grouped", "powr", "neg", "idiv", "imod", "chain", "lit", "big"):
         try:
             print("DERIVE %s %s" % (a, num(getattr(b, a))))
         except BaseException as e:  # noqa
@@ -117,3 +117,34 @@ if s is not None:
             print("SET %s %s accept" % (attr, case))
         except BaseException:  # noqa
             print("SET %s %s refuse" % (attr, case))
+
+# a defined type with a labelled domain rule followed by an unlabelled one; an ARRAY with one slot; an entity with both kinds of rule
+from stepcode.AggregationDataTypes import ARRAY   # noqa
+for v in (50.0, 150.0, -1.0):
+    try:
+        mod.percent(v)
+        print("EXTRA percent(%s) ok" % v)
+    except AssertionError:
+        print("EXTRA percent(%s) raise" % v)
+    except BaseException as e:  # noqa
+        print("EXTRA percent(%s) error:%s" % (v, type(e).__name__))
+print("EXTRA single_slot %s" % ("defined" if hasattr(mod, "single_slot") else "missing"))
+for v in (3, 11, 5, -2):
+    try:
+        one = ARRAY(0, 0, INTEGER)
+        one[0] = INTEGER(1)
+        r_ = mod.ruled(INTEGER(v), one)
+        names_ = sorted(n_ for n_ in dir(r_) if n_.startswith(("lab", "unnamed_wr")))
+        out_ = []
+        for n_ in names_:
+            try:
+                getattr(r_, n_)()
+                out_.append(n_ + ":ok")
+            except AssertionError:
+                out_.append(n_ + ":raise")
+            except BaseException as e:  # noqa
+                out_.append(n_ + ":error:" + type(e).__name__)
+        print("EXTRA ruled(%d) %s" % (v, ",".join(out_)))
+    except BaseException as e:  # noqa
+        print("EXTRA ruled(%d) error:%s" % (v, type(e).__name__))
+
